@@ -199,6 +199,11 @@ class DictField(Field):
         return DictProxy(cfg, self, value)
 
     def __setdefault__(self, cfg: Config) -> None:
+        default = self._get_env_value(cfg)
+        if default is not None:
+            cfg._set_default_value(self._key, default)
+            return
+
         default = self.default
         if isinstance(default, dict) and self._use_proxy:
             default = DictProxy(cfg, self, default)
